@@ -38,6 +38,7 @@
 #include "object.h"
 #include "output.h"
 #include "history.h"
+#include "event.h"
 
 enum { K_META, K_BUF, K_RBUF, K_RAW };
 #define NOBJ 3
@@ -279,8 +280,12 @@ static int refarr_ok(int n)
 	}
 	return 1;
 }
+/* dispatcher whose parameter handlers (mpt_dispatch_param) hold references to a harness metatype */
+static MPT_STRUCT(dispatch) dsp;
+static int dsp_init, dsp_has;
 static void finish_script(void)
 {
+	if (dsp_init) { mpt_dispatch_fini(&dsp); dsp_init = 0; dsp_has = 0; }
 	if (refarr._buf) { mpt_array_clone(&refarr, 0); refarr_n = 0; }
 	for (int h = 0; h < NH; h++) drop_handle(h);
 	if (lout) { lout->_vptr->unref(lout); lout = 0; }
@@ -477,6 +482,30 @@ int main(void)
 			}
 			else { puts("bad-op"); continue; }
 			result(r ? "ok" : "refused", "0");
+		}
+		else if (!strcmp(op, "dsp") && drv_nw >= 3) {
+			/* r dsp param <o>: a reference is taken for the dispatcher and handed to mpt_dispatch_param() (given back when
+			 *                  that fails); its ParamSet/ParamGet/ParamCond handlers hold one reference each
+			 * r dsp fini:      mpt_dispatch_fini(): every handler gives its reference back */
+			if (!strcmp(drv_w[2], "param") && drv_nw == 4) {
+				int oi = parse_idx(drv_w[3], nobj), ret;
+				char rb[16];
+				if (oi < 0 || objs[oi].kind != K_META || !objs[oi].alive || dsp_has) { puts("bad-op"); continue; }
+				if (!dsp_init) { mpt_dispatch_init(&dsp); dsp_init = 1; }
+				if (!hm_addref(&objs[oi].mt)) { result("refused", "0"); continue; }
+				ret = mpt_dispatch_param(&dsp, &objs[oi].mt);
+				if (ret < 0) { hm_unref(&objs[oi].mt); result("refused", "0"); continue; }
+				dsp_has = 1;
+				snprintf(rb, sizeof(rb), "%d", ret);
+				result("ok", rb);
+			}
+			else if (!strcmp(drv_w[2], "fini") && drv_nw == 3) {
+				if (!dsp_init) { puts("bad-op"); continue; }
+				mpt_dispatch_fini(&dsp);
+				dsp_init = 0; dsp_has = 0;
+				result("ok", "0");
+			}
+			else puts("bad-op");
 		}
 		else if (!strcmp(op, "arr") && drv_nw >= 3) {
 			/* r arr new <n>: n reference elements, the last names object 1, all others object 0
